@@ -191,8 +191,8 @@ func init() {
 			"cases >= L: random programs of <=30 operations over a pool of lists on 12 ids (a quarter of the programs: 20..64 ids with dense hubs, so that merged target lists have tens of entries) and 3 edge types where results re-enter the pool (half of the programs share structure between pool members, half deep-copy). " +
 			"An invariant monitor (well-formed; normalised for merge/removal/extraction) runs on every result. distinct = hash of (operation, canonical operands); non-trivial = operand with >=1 node.",
 		Assumptions: []string{"operands are well-formed (checked before each step); NodeDescendants depth >= 1", "nil results (documented for absent start nodes) are not judged"},
-		NCases: func(tier string) int { return len(c08Lists(tier)) + c08Random(tier) },
-		Case:   c08Case,
+		NCases:      func(tier string) int { return len(c08Lists(tier)) + c08Random(tier) },
+		Case:        c08Case,
 		ExhaustiveSubspaces: func(tier string) []string {
 			out := []string{"all 4301 well-formed lists on <=3 ids as receivers of every unary operation with every argument (removal subsets, start ids, depths 1..4)"}
 			if tier == "thorough" {
